@@ -7,6 +7,8 @@
    Part D: the id map; [to_rows] is a relabelling of the temporary rows by a function that is
            injective on the ids in use; numbered ids are "1".."n"; readable ids are pairwise
            distinct; references resolve.
+   Part F: [EFuel] / [EInternal] are never produced; the remapping never fails.
+   Part E: the id skeleton of the rows is invariant under injective renamings of the uuids.
    No size bound anywhere: all statements are for every list of nodes. *)
 From Coq Require Import String.
 From Coq Require Import ZArith List NArith Bool Arith Lia ZifyBool.
@@ -950,6 +952,377 @@ Proof.
   - apply NoDup_map_inj; [|exact Hnd]. intros a b _ _ Hab. inversion Hab. reflexivity.
   - intros Hin. apply in_map_iff in Hin. destruct Hin as [x [Hx Hin]]. inversion Hx; subst. exact (Hs Hin).
   - intros Hin. apply in_map_iff in Hin. destruct Hin as [x [Hx _]]. discriminate.
+Qed.
+
+(* ================================================================== Part F: errors *)
+(* [EFuel] and [EInternal] are never produced: an [Err] of the model is always [ECrash], an
+   exception of the Python.  And every crash comes from the DFS: once the temporary rows exist,
+   the remapping succeeds. *)
+Lemma filter_length_le {T} (p q : T -> bool) (l : list T) :
+  (forall y, In y l -> q y = true -> p y = true) -> (List.length (filter q l) <= List.length (filter p l))%nat.
+Proof.
+  induction l as [|x l IH]; intros H; cbn [filter]; [lia|].
+  assert (IH' : (List.length (filter q l) <= List.length (filter p l))%nat) by (apply IH; intros y Hy; apply H; right; exact Hy).
+  destruct (q x) eqn:Eq.
+  - rewrite (H x (or_introl eq_refl) Eq). cbn [List.length]. lia.
+  - destruct (p x); cbn [List.length]; lia.
+Qed.
+
+Lemma filter_length_lt {T} (p q : T -> bool) (l : list T) x :
+  In x l -> p x = true -> q x = false ->
+  (forall y, In y l -> q y = true -> p y = true) -> (List.length (filter q l) < List.length (filter p l))%nat.
+Proof.
+  induction l as [|z l IH]; intros Hin Hp Hq H; [destruct Hin|]. cbn [filter].
+  assert (Hle : (List.length (filter q l) <= List.length (filter p l))%nat)
+    by (apply filter_length_le; intros y Hy; apply H; right; exact Hy).
+  destruct Hin as [Hin|Hin].
+  - subst z. rewrite Hp, Hq. cbn [List.length]. lia.
+  - assert (IH' : (List.length (filter q l) < List.length (filter p l))%nat)
+      by (apply IH; try assumption; intros y Hy; apply H; right; exact Hy).
+    destruct (q z) eqn:Eq.
+    + rewrite (H z (or_introl eq_refl) Eq). cbn [List.length]. lia.
+    + destruct (p z); cbn [List.length]; lia.
+Qed.
+
+Lemma filter_true_length {T} (l : list T) : List.length (filter (fun _ => true) l) = List.length l.
+Proof. induction l as [|x l IH]; cbn; [reflexivity|]. rewrite IH. reflexivity. Qed.
+
+Lemma mem_u_in_iff u l : mem_u ueqb u l = true <-> In u l.
+Proof.
+  split; [apply mem_u_true|]. intros H. destruct (mem_u ueqb u l) eqn:E; [reflexivity|].
+  exfalso. exact (mem_u_false _ _ E H).
+Qed.
+
+(* ---- the leaves fail with [ECrash] only *)
+Lemma action_short_err (a : action U) e : action_short a = Err e -> e = ECrash.
+Proof.
+  destruct a; cbn [action_short]; intros H; try discriminate; try (inversion H; reflexivity).
+  destruct groups as [|[nm u] r]; [inversion H; reflexivity|discriminate].
+Qed.
+
+Lemma short_name_err (n : node U) e : short_name n = Err e -> e = ECrash.
+Proof.
+  unfold short_name. intros H. destruct (n_kind n) as [d|rk r|rs cats]; [| |discriminate].
+  - destruct (n_actions n) as [|a l]; [inversion H; reflexivity|apply (action_short_err _ _ H)].
+  - destruct rk; try discriminate.
+    + destruct (n_actions n) as [|a l]; [inversion H; reflexivity|apply (action_short_err _ _ H)].
+    + destruct (n_actions n) as [|a l]; [inversion H; reflexivity|]. destruct a; try discriminate; inversion H; reflexivity.
+    + destruct (n_actions n) as [|a l]; [inversion H; reflexivity|]. destruct a; try discriminate; inversion H; reflexivity.
+Qed.
+
+Lemma action_fields_err (a : action U) e : action_fields a = Err e -> e = ECrash.
+Proof.
+  destruct a; cbn [action_fields]; intros H; try discriminate; try (inversion H; reflexivity).
+  - destruct (split_attachments attachments) as [[[img aud] vid] rest]. discriminate.
+  - destruct groups as [|[nm u] r]; [inversion H; reflexivity|discriminate].
+Qed.
+
+Lemma node_kwargs_err (n : node U) e : node_kwargs n = Err e -> e = ECrash.
+Proof.
+  unfold node_kwargs. destruct (n_kind n) as [d|rk r|rs cats]; try discriminate.
+  destruct rk; try discriminate. unfold router_kwargs.
+  destruct (sw_wait r); cbn [bind]; [discriminate|].
+  destruct (str_eqb (sw_operand r) groups_operand); cbn [bind]; [|discriminate].
+  destruct (sw_cases r) as [|k ks]; cbn [bind]; [intros H; inversion H; reflexivity|].
+  destruct (case_arg1 k); [|intros H; inversion H; reflexivity].
+  destruct (case_arg0 k); cbn [bind]; [discriminate|intros H; inversion H; reflexivity].
+Qed.
+
+Lemma action_rows_err u sn base acts : forall i (pe : edge U tidU) e,
+  action_rows u sn base acts i pe = Err e -> e = ECrash.
+Proof.
+  induction acts as [|a rest IH]; intros i pe e H; cbn [action_rows] in H; [discriminate|].
+  destruct (action_fields a) as [tp|e'] eqn:Ea; cbn [bind] in H.
+  - destruct (action_rows u sn base rest (S i) _) as [more|e''] eqn:Em; cbn [bind] in H; [discriminate|].
+    inversion H; subst. apply (IH _ _ _ Em).
+  - inversion H; subst. apply (action_fields_err _ _ Ea).
+Qed.
+
+Lemma initiate_err (n : node U) sn (pe : edge U tidU) e : initiate_row_models n sn pe = Err e -> e = ECrash.
+Proof.
+  unfold initiate_row_models. destruct (node_kwargs n) as [kw|e'] eqn:Ek; cbn [bind].
+  - destruct (n_actions n) as [|a rest].
+    + destruct kw as [[tp p]|]; [discriminate|intros H; inversion H; reflexivity].
+    + apply action_rows_err.
+  - intros H; inversion H; subst. apply (node_kwargs_err _ _ Ek).
+Qed.
+
+Lemma case_cond_err (r : srouter U) k c e : case_cond r k c = Err e -> e = ECrash.
+Proof.
+  unfold case_cond. destruct (_ || _).
+  - destruct (cond_arg r k); [discriminate|intros H; inversion H; reflexivity].
+  - destruct (mem_str (k_type k) no_args_tests); cbn [bind]; [discriminate|].
+    destruct (cond_arg r k); cbn [bind]; [discriminate|intros H; inversion H; reflexivity].
+Qed.
+
+Lemma category_pairs_err (r : srouter U) (last : tidU) cats : forall covered e,
+  category_pairs ueqb r last cats covered = Err e -> e = ECrash.
+Proof.
+  induction cats as [|c rest IH]; intros covered e H; cbn [category_pairs] in H; [discriminate|].
+  destruct (find _ (sw_cases r)) as [k|]; [|apply (IH _ _ H)].
+  destruct (case_cond r k c) as [cd|e'] eqn:Ec; cbn [bind] in H.
+  - destruct (category_pairs ueqb r last rest (c_uuid c :: covered)) as [more|e''] eqn:Em; cbn [bind] in H; [discriminate|].
+    inversion H; subst. apply (IH _ _ Em).
+  - inversion H; subst. apply (case_cond_err _ _ _ _ Ec).
+Qed.
+
+Lemma exit_edge_pairs_err (n : node U) (last : tidU) e : exit_edge_pairs ueqb n last = Err e -> e = ECrash.
+Proof.
+  unfold exit_edge_pairs. destruct (n_kind n) as [d|rk r|rs cats]; try discriminate.
+  unfold switch_pairs. destruct (category_pairs ueqb r last (all_categories r) []) as [pc|e'] eqn:Ec; cbn [bind]; [discriminate|].
+  intros H; inversion H; subst. apply (category_pairs_err _ _ _ _ _ Ec).
+Qed.
+
+Lemma prepend_edge_some (t : tidU) e (rows : list trow) :
+  In t (map r_id rows) -> prepend_edge ueqb t e rows <> None.
+Proof.
+  induction rows as [|r rest IH]; intros Hin; [destruct Hin|]. cbn [prepend_edge].
+  destruct (tid_eqb ueqb (r_id r) t) eqn:E; [discriminate|].
+  destruct Hin as [Hin|Hin]; [rewrite (proj2 (tid_eqb_eq _ _) Hin) in E; discriminate|].
+  specialize (IH Hin). destruct (prepend_edge ueqb t e rest); [discriminate|contradiction].
+Qed.
+
+Section Totality.
+Variable nodes : list (node U).
+
+Lemma find_node_in' u n : find_node ueqb nodes u = Some n -> In n nodes.
+Proof.
+  induction nodes as [|m rest IH]; cbn [find_node]; [discriminate|].
+  destruct (ueqb (n_uuid m) u); intros H; [inversion H; subst; left; reflexivity|right; apply IH, H].
+Qed.
+
+(* ---- fuel of the DFS: the uuids of the node list that are not yet visited *)
+Definition unv (st : state U) : list U :=
+  filter (fun u => negb (mem_u ueqb u (st_vis st))) (map n_uuid nodes).
+
+Lemma unv_mono st st' : incl (st_vis st) (st_vis st') -> (List.length (unv st') <= List.length (unv st))%nat.
+Proof.
+  intros Hi. unfold unv. apply filter_length_le. intros y _ Hy.
+  apply negb_true_iff in Hy. apply negb_true_iff.
+  destruct (mem_u ueqb y (st_vis st)) eqn:E; [|reflexivity].
+  apply mem_u_true in E. apply Hi in E. apply mem_u_in_iff in E. congruence.
+Qed.
+
+(* a done node has its first row in the state (so that an edge can be prepended to it) *)
+Definition Done (st : state U) : Prop :=
+  forall c csn, find_node ueqb nodes (n_uuid c) = Some c -> In (n_uuid c) (st_done st) ->
+                short_name c = Ok csn -> In (TNode (n_uuid c) csn) (map r_id (st_rows st)).
+
+(* the errors of a visit are crashes, given enough fuel *)
+Definition rec_err (f : nat) (rec : node U -> edge U tidU -> state U -> res (state U)) : Prop :=
+  forall c e s, find_node ueqb nodes (n_uuid c) = Some c -> ~ In (n_uuid c) (st_vis s) ->
+    (List.length (unv s) <= f)%nat -> Done s ->
+    match rec c e s with Ok s' => Done s' | Err er => er = ECrash end.
+
+Lemma step_err f rec : rec_ext rec -> rec_err f rec ->
+  forall st p, (List.length (unv st) <= f)%nat -> Done st ->
+    match step ueqb nodes rec st p with Ok s' => Done s' | Err er => er = ECrash end.
+Proof.
+  intros Hext Hrec st [d e] Hl Hd. unfold step. cbn [fst snd].
+  destruct d as [d|]; [|exact Hd].
+  destruct (find_node ueqb nodes d) as [child|] eqn:Efn; [|reflexivity].
+  pose proof (find_node_uuid _ _ _ Efn) as Hu. rewrite <- Hu in Efn.
+  destruct (mem_u ueqb (n_uuid child) (st_done st)) eqn:Ed.
+  - destruct (short_name child) as [csn|er] eqn:Es; cbn [bind]; [|apply (short_name_err _ _ Es)].
+    pose proof (Hd child csn Efn (mem_u_true _ _ Ed) Es) as Hin.
+    pose proof (prepend_edge_some _ e _ Hin) as Hp.
+    destruct (prepend_edge ueqb _ e (st_rows st)) as [rows'|] eqn:Ep; [|contradiction].
+    intros c csn' Hc Hcd Hcs. cbn [st_done st_rows] in *. rewrite (prepend_edge_ids _ _ _ _ Ep).
+    apply (Hd c csn' Hc Hcd Hcs).
+  - destruct (mem_u ueqb (n_uuid child) (st_vis st)) eqn:Ev.
+    + destruct (short_name child) as [csn|er] eqn:Es; cbn [bind]; [|apply (short_name_err _ _ Es)].
+      intros c csn' Hc Hcd Hcs. cbn [st_done st_rows map] in *. right. apply (Hd c csn' Hc Hcd Hcs).
+    + apply (Hrec _ _ _ Efn (mem_u_false _ _ Ev) Hl Hd).
+Qed.
+
+Lemma foldM_step_err f rec : rec_ext rec -> rec_err f rec ->
+  forall prs st, (List.length (unv st) <= f)%nat -> Done st ->
+    match foldM (step ueqb nodes rec) prs st with Ok s' => Done s' | Err er => er = ECrash end.
+Proof.
+  intros Hext Hrec prs. induction prs as [|p rest IH]; intros st Hl Hd; cbn [foldM]; [exact Hd|].
+  pose proof (step_err f rec Hext Hrec st p Hl Hd) as Hs.
+  destruct (step ueqb nodes rec st p) as [st1|er] eqn:Es; [|exact Hs].
+  apply IH; [|exact Hs].
+  pose proof (step_ext nodes rec Hext _ _ _ Es) as [v1 _ _ _ _ _]. pose proof (unv_mono _ _ v1). lia.
+Qed.
+
+Lemma visit_err : forall fuel, rec_err fuel (visit ueqb nodes fuel).
+Proof.
+  induction fuel as [|fuel IH]; intros n pe st Hfn Hv Hl Hd.
+  - (* the node itself is not visited yet: the measure is positive *)
+    exfalso. assert (Hpos : (0 < List.length (unv st))%nat).
+    { unfold unv. apply find_node_in' in Hfn.
+      assert (Hin : In (n_uuid n) (filter (fun u => negb (mem_u ueqb u (st_vis st))) (map n_uuid nodes))).
+      { apply filter_In. split; [apply in_map, Hfn|]. apply negb_true_iff.
+        destruct (mem_u ueqb (n_uuid n) (st_vis st)) eqn:E; [apply mem_u_true in E; contradiction|reflexivity]. }
+      destruct (filter _ _); [destruct Hin|cbn; lia]. }
+    lia.
+  - cbn [visit].
+    destruct (short_name n) as [sn|e] eqn:Esn; cbn [bind]; [|apply (short_name_err _ _ Esn)].
+    destruct (initiate_row_models n sn pe) as [rms|e] eqn:Ei; cbn [bind]; [|apply (initiate_err _ _ _ _ Ei)].
+    destruct (exit_edge_pairs ueqb n (last_row_id n sn)) as [prs|e] eqn:Ee; cbn [bind]; [|apply (exit_edge_pairs_err _ _ _ Ee)].
+    set (s0 := {| st_vis := n_uuid n :: st_vis st; st_done := st_done st; st_rows := st_rows st; st_k := st_k st |}).
+    assert (Hl0 : (List.length (unv s0) <= fuel)%nat).
+    { assert (Hlt : (List.length (unv s0) < List.length (unv st))%nat); [|lia].
+      unfold unv, s0. cbn [st_vis]. apply (filter_length_lt _ _ _ (n_uuid n)).
+      - apply in_map. apply (find_node_in' _ _ Hfn).
+      - apply negb_true_iff. destruct (mem_u ueqb (n_uuid n) (st_vis st)) eqn:E; [apply mem_u_true in E; contradiction|reflexivity].
+      - apply negb_false_iff. apply mem_u_in_iff. left. reflexivity.
+      - intros y _ Hy. apply negb_true_iff in Hy. apply negb_true_iff.
+        destruct (mem_u ueqb y (st_vis st)) eqn:E; [|reflexivity].
+        apply mem_u_true in E. assert (In y (n_uuid n :: st_vis st)) as Hy' by (right; exact E).
+        apply mem_u_in_iff in Hy'. congruence. }
+    pose proof (foldM_step_err fuel _ (visit_ext nodes fuel) IH (rev prs) s0 Hl0 Hd) as Hf.
+    destruct (foldM _ (rev prs) s0) as [st1|e] eqn:Ef; cbn [bind]; [|exact Hf].
+    pose proof (foldM_step_ext nodes _ (visit_ext nodes fuel) _ _ _ Ef) as [v1 d1 nd1 nv1 k1 i1].
+    intros c csn Hc Hcd Hcs. cbn [st_done st_rows] in *. rewrite map_app. apply in_or_app.
+    destruct Hcd as [Hcd|Hcd].
+    + left. assert (c = n) by (rewrite <- Hcd in Hc; rewrite Hfn in Hc; inversion Hc; reflexivity). subst c.
+      rewrite Esn in Hcs. inversion Hcs; subst csn. rewrite (initiate_ids _ _ _ _ Ei). apply first_in_node_row_ids.
+    + right. apply (Hf c csn Hc Hcd Hcs).
+Qed.
+
+End Totality.
+
+(* C17-8.  the temporary rows: never out of fuel, never an internal error *)
+Lemma to_rows_tmp_err nodes e : to_rows_tmp ueqb nodes = Err e -> e = ECrash.
+Proof.
+  unfold to_rows_tmp. destruct nodes as [|n0 rest]; [discriminate|].
+  pose proof (visit_err (n0 :: rest) (S (List.length (n0 :: rest))) n0 start_edge state0) as H.
+  destruct (visit ueqb (n0 :: rest) _ n0 start_edge state0) as [st|er]; cbn [bind]; [discriminate|].
+  intros He; inversion He; subst. apply H.
+  - cbn [find_node]. rewrite ueqb_refl. reflexivity.
+  - intros [].
+  - unfold unv. cbn [state0 st_vis]. etransitivity; [apply filter_length_le with (p := fun _ => true); reflexivity|].
+    rewrite filter_true_length, map_length. lia.
+  - intros c csn _ [].
+Qed.
+
+
+(* ---- the remapping never fails *)
+Lemma forallb_false_exists {T} (p : T -> bool) (l : list T) :
+  forallb p l = false -> exists x, In x l /\ p x = false.
+Proof.
+  induction l as [|x l IH]; cbn [forallb]; [discriminate|].
+  destruct (p x) eqn:E; cbn [andb].
+  - intros H. destruct (IH H) as [y [Hy Hp]]. exists y. split; [right; exact Hy|exact Hp].
+  - intros _. exists x. split; [left; reflexivity|exact E].
+Qed.
+
+Lemma mem_str_true k l : mem_str k l = true -> In k l.
+Proof.
+  unfold mem_str. intros H. apply existsb_exists in H. destruct H as [x [Hin Hx]].
+  apply str_eqb_eq in Hx. subst. exact Hin.
+Qed.
+
+Definition cand (base : str) (j : nat) : str := base ++ [46%N] ++ dec_of_nat j.
+
+(* pigeonhole: among base.1 .. base.(n+1) one name is not taken by n values *)
+Lemma exists_fresh base (values : list str) :
+  exists j, (1 <= j < 1 + S (List.length values))%nat /\ ~ In (cand base j) values.
+Proof.
+  destruct (forallb (fun j => mem_str (cand base j) values) (seq 1 (S (List.length values)))) eqn:E.
+  - exfalso. rewrite forallb_forall in E.
+    assert (Hincl : incl (map (cand base) (seq 1 (S (List.length values)))) values).
+    { intros x Hx. apply in_map_iff in Hx. destruct Hx as [j [Hj Hin]]. subst x. apply mem_str_true, E, Hin. }
+    assert (Hnd : NoDup (map (cand base) (seq 1 (S (List.length values))))).
+    { apply NoDup_map_inj; [|apply seq_NoDup]. intros a b _ _ Hab. unfold cand in Hab.
+      apply app_inv_head in Hab. injection Hab as Hab. apply dec_of_nat_inj, Hab. }
+    pose proof (NoDup_incl_length Hnd Hincl) as Hlen. rewrite map_length, seq_length in Hlen. lia.
+  - apply forallb_false_exists in E. destruct E as [j [Hj Hp]]. exists j. apply in_seq in Hj.
+    split; [lia|apply mem_str_false, Hp].
+Qed.
+
+Lemma find_free_total base values : forall fuel counter,
+  (exists j, (counter <= j < counter + fuel)%nat /\ ~ In (cand base j) values) ->
+  exists s, find_free fuel counter base values = Ok s.
+Proof.
+  induction fuel as [|fu IH]; intros counter [j [Hj Hn]]; [lia|]. cbn [find_free].
+  fold (cand base counter).
+  destruct (mem_str (cand base counter) values) eqn:E; [|eexists; reflexivity].
+  apply IH. exists j. split; [|exact Hn].
+  assert (j <> counter) by (intros Heq; subst; apply Hn, mem_str_true, E). lia.
+Qed.
+
+Lemma fresh_id_total base values : exists s, fresh_id base values = Ok s.
+Proof.
+  unfold fresh_id. destruct (mem_str base values); [|eexists; reflexivity].
+  apply find_free_total. apply exists_fresh.
+Qed.
+
+Lemma build_map_total nb : forall (rows : list trow) idx (m : idmapU),
+  ~ In TStart (map r_id rows) -> exists m', build_map ueqb nb rows idx m = Ok m'.
+Proof.
+  induction rows as [|r rest IH]; intros idx m Hs; cbn [build_map]; [eexists; reflexivity|].
+  cbn [map] in Hs.
+  assert (Hnew : exists new, (if nb then Ok (dec_of_nat (S idx))
+                              else (do base <- tid_short (r_id r); fresh_id base (map snd m))) = Ok new).
+  { destruct nb; [eexists; reflexivity|].
+    destruct (r_id r) as [|u sn|k sn] eqn:Er; cbn [tid_short bind]; [exfalso; apply Hs; left; reflexivity| |]; apply fresh_id_total. }
+  destruct Hnew as [new Hnew]. rewrite Hnew. cbn [bind]. apply IH. intros Hin. apply Hs. right. exact Hin.
+Qed.
+
+Lemma mget_key (m : idmapU) t : In t (map fst m) -> exists s, mget ueqb m t = Ok s.
+Proof.
+  induction m as [|[t' s'] r IH]; intros Hin; [destruct Hin|]. cbn [mget].
+  destruct (tid_eqb ueqb t' t) eqn:E; [eexists; reflexivity|].
+  destruct Hin as [Hin|Hin]; [cbn [fst] in Hin; rewrite (proj2 (tid_eqb_eq _ _) Hin) in E; discriminate|apply IH, Hin].
+Qed.
+
+Lemma mapM_total {E S T} (f : S -> result E T) (l : list S) :
+  (forall x, In x l -> exists y, f x = Ok y) -> exists l', mapM f l = Ok l'.
+Proof.
+  induction l as [|x r IH]; intros H; cbn [mapM]; [eexists; reflexivity|].
+  destruct (H x (or_introl eq_refl)) as [y Hy]. rewrite Hy.
+  destruct IH as [ys Hys]; [intros z Hz; apply H; right; exact Hz|]. rewrite Hys. eexists; reflexivity.
+Qed.
+
+(* C17-9.  once the DFS has produced the temporary rows, the remapping succeeds: every crash
+   of the export is a crash of the DFS *)
+Theorem remap_total nb nodes tmp :
+  to_rows_tmp ueqb nodes = Ok tmp -> exists rows, to_rows ueqb nb nodes = Ok rows.
+Proof.
+  intros Ht. unfold to_rows. rewrite Ht. cbn [bind].
+  pose proof (to_rows_tmp_ids _ _ Ht) as [Hnd [Hns Hrefs]].
+  destruct (build_map_total nb tmp 0 idmap0 Hns) as [m Hm]. rewrite Hm. cbn [bind].
+  pose proof (build_map_spec nb tmp 0 idmap0 m Hnd) as Hspec.
+  destruct Hspec as [news [Hlen [Hmeq _]]]; [|exact Hm|].
+  { intros t Ht' [Hin|[]]. cbn [fst] in Hin. subst t. exact (Hns Ht'). }
+  assert (Hkeys : map fst m = TStart :: map r_id tmp).
+  { rewrite Hmeq, map_app, (combine_fst _ _ Hlen). reflexivity. }
+  assert (Hget : forall t, t = TStart \/ In t (map r_id tmp) -> exists s, mget ueqb m t = Ok s).
+  { intros t Ht'. apply mget_key. rewrite Hkeys. destruct Ht' as [Ht'|Ht']; [left; symmetry; exact Ht'|right; exact Ht']. }
+  apply mapM_total. intros r Hr. unfold remap_row.
+  destruct (Hget (r_id r)) as [id Hid]; [right; apply in_map, Hr|]. rewrite Hid. cbn [bind].
+  unfold Refs, RefsI in Hrefs. rewrite Forall_forall in Hrefs. specialize (Hrefs r Hr).
+  unfold row_refs in Hrefs. apply Forall_app in Hrefs. destruct Hrefs as [He Hg].
+  rewrite Forall_forall in He, Hg.
+  destruct (mapM_total (mget ueqb m) (r_goto r)) as [gt Hgt].
+  { intros t Ht'. apply Hget. destruct (Hg t Ht') as [H|[H|[]]]; [left; exact H|right; exact H]. }
+  rewrite Hgt. cbn [bind].
+  destruct (mapM_total (remap_edge ueqb m) (r_edges r)) as [es Hes].
+  { intros e He'. unfold remap_edge.
+    destruct (Hget (e_from e)) as [fr Hfr].
+    { destruct (He (e_from e) (in_map _ _ _ He')) as [H|[H|[]]]; [left; exact H|right; exact H]. }
+    rewrite Hfr. cbn [bind]. eexists; reflexivity. }
+  rewrite Hes. cbn [bind]. eexists; reflexivity.
+Qed.
+
+(* C17-10.  an error of the export is always a crash (an exception of the Python), and it is a
+   crash of the DFS *)
+Theorem to_rows_err nb nodes e :
+  to_rows ueqb nb nodes = Err e -> e = ECrash /\ to_rows_tmp ueqb nodes = Err ECrash.
+Proof.
+  intros H. destruct (to_rows_tmp ueqb nodes) as [tmp|e'] eqn:Et.
+  - destruct (remap_total nb _ _ Et) as [rows Hr]. congruence.
+  - pose proof (to_rows_tmp_err _ _ Et) as He. subst e'. unfold to_rows in H. rewrite Et in H. cbn [bind] in H.
+    inversion H; subst. split; reflexivity.
+Qed.
+
+Theorem export_strip_err nb nodes e : export_strip ueqb nb nodes = Err e -> e = ECrash.
+Proof.
+  unfold export_strip, export. destruct (to_rows ueqb nb nodes) as [rows|e'] eqn:Et; cbn [bind]; [discriminate|].
+  intros H; inversion H; subst. apply (to_rows_err _ _ _ Et).
 Qed.
 
 End RowIds.
